@@ -659,10 +659,15 @@ class MarkdownNormalizer(Renderer):
         return "\n" if element.soft else "\\\n"
 
     def render_code_span(self, element: inline.CodeSpan) -> str:
-        text = element.children
+        text = cast(str, element.children)
+        # The delimiter must be a backtick run of a length that does not occur in the text.
+        runs = {len(run) for run in re.findall(r"`+", text)}
+        delimiter = "`"
+        while len(delimiter) in runs:
+            delimiter += "`"
         if text and (text[0] == "`" or text[-1] == "`"):
-            return f"`` {text} ``"
-        return f"`{element.children}`"
+            return f"{delimiter} {text} {delimiter}"
+        return f"{delimiter}{text}{delimiter}"
 
     # --- GFM Renderer Methods ---
 
